@@ -2,6 +2,7 @@
 (VIOLATION / KNOWN-FINDING / HARNESS-ERROR), minimisation, replay files, evidence."""
 import concurrent.futures as cf
 import faulthandler
+import fnmatch
 import importlib
 import json
 import multiprocessing as mp
@@ -127,7 +128,7 @@ def known_match(entries, prop, cls):
         if e.get("status") != "known" or e.get("property") != prop:
             continue
         c = e["class"]
-        if c == cls or (c.endswith("*") and cls.startswith(c[:-1])):
+        if c == cls or ("*" in c and fnmatch.fnmatchcase(cls, c)):
             return e
     return None
 
